@@ -9,7 +9,7 @@
    arrive as sequences and are turned into the sets the Reference works on.            *)
 EXTENDS Naturals, Sequences, FiniteSets, TLC, Json, IOUtils
 
-CONSTANTS Pool, MaxDirs, MaxDepth, MaxFiles, MaxGi, MaxLines, ParseLimit, OpenLimit, EmitMod, EmitRem
+CONSTANTS Pool, MaxDirs, MaxDepth, MaxFiles, MaxGi, MaxLines, ParseLimit, OpenLimit, EmitMod, EmitRem, Fixed
 VARIABLES dirs, files, gi
 INSTANCE Search
 
